@@ -190,6 +190,58 @@ def coefficients(ctx):
               gtxt == ['meshes.BaseMesh(model.grid.h, model.grid.origin)'],
               f'self.grid is built as {gtxt}', ctx.where(mm, init))
 
+    # the three directions are independent: no local of the loop body may be
+    # read before it is (re)assigned in the same iteration, i.e. nothing is
+    # carried from one direction to the next
+    assigned = set()
+    for n_ in ast.walk(loop):
+        if isinstance(n_, (ast.Assign, ast.AugAssign)):
+            for t_ in (n_.targets if isinstance(n_, ast.Assign)
+                       else [n_.target]):
+                if isinstance(t_, ast.Name):
+                    assigned.add(t_.id)
+    carried = []
+
+    def loads(e):
+        return [x for x in ast.walk(e) if isinstance(x, ast.Name) and
+                isinstance(x.ctx, ast.Load)]
+
+    def scan(stmts, defd):
+        defd = set(defd)
+        for st_ in stmts:
+            if isinstance(st_, ast.If):
+                for x in loads(st_.test):
+                    if x.id in assigned and x.id not in defd:
+                        carried.append(x)
+                a_ = scan(st_.body, defd)
+                b_ = scan(st_.orelse, defd)
+                defd |= (a_ & b_)
+            elif isinstance(st_, ast.Assign):
+                for x in loads(st_.value):
+                    if x.id in assigned and x.id not in defd:
+                        carried.append(x)
+                for t_ in st_.targets:
+                    if isinstance(t_, ast.Name):
+                        defd.add(t_.id)
+            elif isinstance(st_, ast.AugAssign):
+                for x in loads(st_.value) + (
+                        [st_.target] if isinstance(st_.target, ast.Name)
+                        else loads(st_.target)):
+                    if x.id in assigned and x.id not in defd:
+                        carried.append(x)
+            else:
+                for x in loads(st_):
+                    if x.id in assigned and x.id not in defd:
+                        carried.append(x)
+        return defd
+    scan(loop.body, {lv})
+    ctx.check('C02.O4.eta', 'VolumeModel: directions computed independently',
+              not carried, f'`{carried[0].id if carried else ""}` is read in '
+              'the direction loop before it is assigned in the same '
+              'iteration: a value of the previous direction (x) enters eta '
+              'of the next (y, z)', ctx.where(mm, carried[0] if carried
+                                              else loop))
+
     V, smu0, sval, eps0 = sp.symbols('V smu0 sval eps0')
     epsr, mur = sp.symbols('eps_r mu_r', positive=True)
     cond = sp.Symbol('sigma', positive=True)
